@@ -284,21 +284,27 @@ func drawEnv(rng *prng.R, c *tcase, blobLen int64, totalOps, maxG int) *envSpec 
 	if e.cfg.FSCacheType != "memory" && rng.Chance(1, 4) && !tiny {
 		e.cfg.PassThrough = true
 		dc.Direct = true
-		// merge buffer: the default (400 MiB), smaller than a chunk (sequential merge), a
-		// multiple of the build chunk size (batched merge, chunk-aligned batches) and, rarely,
-		// a size that is not a multiple of the chunk size (batches cut through chunks).
+		// merge_buffer_size: 0, smaller than a chunk (both: sequential merge), a few chunks
+		// (batched merge; chunk-aligned or not), larger than any file (the default, 400 MiB).
 		switch rng.Intn(10) {
-		case 0, 1, 2:
+		case 0:
+			e.cfg.MergeBufferSize = 0
+		case 1, 2:
 			e.cfg.MergeBufferSize = 400 << 20
 		case 3, 4:
 			e.cfg.MergeBufferSize = int64(rng.Pick(1, c.chunk/2+1))
-		case 5, 6, 7, 8:
+		case 5, 6, 7:
 			e.cfg.MergeBufferSize = int64(c.chunk) * int64(rng.Pick(1, 2, 3))
 		default:
 			e.cfg.MergeBufferSize = int64(c.chunk)*int64(rng.Pick(1, 2)) + int64(rng.Pick(1, c.chunk/2+1, 36))
+		}
+		// merge_worker_count: any integer a user can write into the [fuse] section, including
+		// 0 and a negative value. A non-positive count can kill the process (negative: slice
+		// allocation), so those environments run in the second wave.
+		e.cfg.MergeWorkerCount = []int{0, -1, 1, 2, 3, 10, 1, 3, 10, 0}[rng.Intn(10)]
+		if e.cfg.MergeWorkerCount <= 0 {
 			e.risky = true
 		}
-		e.cfg.MergeWorkerCount = rng.Pick(1, 3, 10)
 		d = append(d, fmt.Sprintf("passthrough(buf=%d,workers=%d,direct)", e.cfg.MergeBufferSize, e.cfg.MergeWorkerCount))
 	}
 	e.cfg.MaxConcurrency = int64(rng.Pick(1, 2, 4))
